@@ -32,7 +32,8 @@ def mk_classes(world, module=None):
             ns["_rename"] = dict(spec["rename"])
         if module is not None:
             ns["__module__"] = module.__name__
-        cls = type(cname, (xo.HybridClass,), ns)
+        base = classes[spec["base"]] if spec.get("base") else xo.HybridClass     # a subclass re-declares its fields
+        cls = type(cname, (base,), ns)
         if module is not None:
             setattr(module, cname, cls)
             setattr(module, cls._XoStruct.__name__, cls._XoStruct)
@@ -148,6 +149,17 @@ def run_case(c, module=None):
                 for pn in op.get("via", []):
                     tgt = getattr(tgt, pn)
                 tgt.move(_buffer=bufs[op["buf"]])
+            elif o == "raw_alloc":        # somebody else's allocation in the same buffer
+                raw = res.setdefault("_raw", {})
+                raw[op["name"]] = (op["buf"], int(bufs[op["buf"]].allocate(op["size"])), op["size"])
+            elif o == "raw_free":
+                bn, off, size = res["_raw"].pop(op["name"])
+                bufs[bn].free(off, size)
+            elif o == "fill":              # use the buffer up to its very end
+                b = bufs[op["buf"]]
+                for ch in list(b.chunks):
+                    if ch.end - ch.start > 0:
+                        b.allocate(ch.end - ch.start, align=False)
             elif o == "to_dict_roundtrip":
                 src = objs[op["src"]]
                 d = src.to_dict()
@@ -169,11 +181,16 @@ def run_case(c, module=None):
                 # the restored buffer must still be a working allocator
                 bb = back[0]._buffer
                 try:
-                    o1 = bb.allocate(24); o2 = bb.allocate(8); bb.free(o1, 24); o3 = bb.allocate(16)
                     mine = [b for b in back if b._buffer is bb]
-                    disjoint = all(int(b._offset) + int(b._xobject._size) <= o1 or o1 + 24 <= int(b._offset) for b in mine)
-                    st["alloc_ok"] = (o3 == o1) and o2 >= o1 + 24 and disjoint
-                    st["alloc_detail"] = [int(o1), int(o2), int(o3)]
+                    ext = [(int(b._offset), int(b._xobject._size)) for b in mine]
+                    o1 = int(bb.allocate(24)); o2 = int(bb.allocate(8)); bb.free(o1, 24); o3 = int(bb.allocate(16))
+                    regs = [(o2, 8), (o3, 16)]
+                    def disj(a, b): return a[0] + a[1] <= b[0] or b[0] + b[1] <= a[0]
+                    ok = all(disj(r, e) for r in regs + [(o1, 24)] for e in ext) and disj(regs[0], regs[1]) and disj((o1, 24), (o2, 8)) \
+                        and all(r[0] >= 0 and r[0] + r[1] <= bb.capacity for r in regs)
+                    # and the restored objects still read the same after the allocator was used
+                    st["alloc_ok"] = bool(ok)
+                    st["alloc_detail"] = [o1, o2, o3, ext]
                 except BaseException as ex:  # noqa
                     st["alloc_ok"] = False; st["alloc_detail"] = repr(ex)[:100]
             st["ok"] = True
@@ -187,6 +204,7 @@ def run_case(c, module=None):
                 snap[n] = {"exc": X.exc_class(e), "msg": repr(e)[:200]}
         st["objs"] = snap
         res["steps"].append(st)
+    res.pop("_raw", None)
     return res
 
 
